@@ -181,6 +181,7 @@ struct Agg {
     distinct_texts: std::collections::BTreeSet<u64>,
     err_verdicts: u64,
     ok_verdicts: u64,
+    handle_states: u64,
 }
 
 impl Agg {
@@ -276,8 +277,57 @@ where
         if !Arc::ptr_eq(&*w, &*c) {
             agg.diff(probe, "root", "clone-shares", "same allocation".into(), "copied".into(), vs.clone());
         }
+        drop(c);
         if format!("{w:?}") != vs {
             agg.diff(probe, "root", "debug", vs.clone(), format!("{w:?}"), vs.clone());
+        }
+        // handle-state exploration: every sequence of <= 3 operations from {clone handle i, drop
+        // handle i} starting from one handle; in every reached state every live handle must show
+        // the bare value's observations (serialize, restriction verdicts, debug) and share storage
+        let bare_obs = (sb.clone(), restriction_args().into_iter().map(|r| chk(v, r)).collect::<Vec<_>>(), vs.clone());
+        let mut frontier: Vec<Vec<u8>> = vec![vec![]];
+        for _depth in 0..=3 {
+            let mut next = vec![];
+            for seq in &frontier {
+                // rebuild the state by replaying the operation sequence on a fresh wrapper
+                let mut handles: Vec<MultiRef<T>> = vec![MultiRef::new(v.clone())];
+                for op in seq {
+                    let (is_clone, idx) = (op & 1 == 0, (op >> 1) as usize);
+                    if is_clone {
+                        let h = handles[idx].clone();
+                        handles.push(h);
+                    } else {
+                        handles.remove(idx);
+                    }
+                }
+                agg.evaluations += 1;
+                agg.handle_states += 1;
+                for (hi, h) in handles.iter().enumerate() {
+                    let obs = (ser(h), restriction_args().into_iter().map(|r| chk(h, r)).collect::<Vec<_>>(), format!("{h:?}"));
+                    if obs != bare_obs {
+                        let what = if obs.0 != bare_obs.0 { "serialize" } else if obs.1 != bare_obs.1 { "check_restrictions" } else { "debug" };
+                        agg.diff(probe, "root+shared-handles", what, format!("{bare_obs:?}"), format!("{obs:?}"), format!("{vs} ops={seq:?} handle={hi} live={}", handles.len()));
+                    }
+                    if !Arc::ptr_eq(&**h, &*handles[0]) {
+                        agg.diff(probe, "root+shared-handles", "clone-shares", "same allocation".into(), "copied".into(), format!("{vs} ops={seq:?}"));
+                    }
+                }
+                if seq.len() < 3 {
+                    for i in 0..handles.len() {
+                        if handles.len() < 3 {
+                            let mut s2 = seq.clone();
+                            s2.push((i as u8) << 1);
+                            next.push(s2);
+                        }
+                        if handles.len() > 1 {
+                            let mut s2 = seq.clone();
+                            s2.push(((i as u8) << 1) | 1);
+                            next.push(s2);
+                        }
+                    }
+                }
+            }
+            frontier = next;
         }
     }
 }
@@ -337,26 +387,34 @@ macro_rules! field_probe {
             for (i, v) in vals.iter().enumerate() {
                 // the Option and Vec members take neighbouring values so that every value also
                 // appears there; shapes: opt in {absent, present}, items in {0, 1, 3}
-                for shape in 0..6usize {
-                    let opt = if shape % 2 == 0 { None } else { Some(vals[(i + 1) % n].clone()) };
+                for shape in 0..7usize {
+                    let opt = if shape == 6 { Some(v.clone()) } else if shape % 2 == 0 { None } else { Some(vals[(i + 1) % n].clone()) };
                     let items: Vec<$t> = match shape / 2 {
                         0 => vec![],
                         1 => vec![vals[(i + 2) % n].clone()],
-                        _ => vec![vals[(i + 3) % n].clone(), v.clone(), vals[(i + 5) % n].clone()],
+                        2 => vec![vals[(i + 3) % n].clone(), v.clone(), vals[(i + 5) % n].clone()],
+                        _ => vec![v.clone(), v.clone()],
                     };
                     let hb = $hb { tag: "t<&>".into(), inner: v.clone(), opt: opt.clone(), items: items.clone(), after: "z".into() };
-                    let hw = $hw {
-                        tag: "t<&>".into(),
-                        inner: MultiRef::new(v.clone()),
-                        opt: opt.clone().map(MultiRef::new),
-                        items: items.iter().cloned().map(MultiRef::new).collect(),
-                        after: "z".into(),
+                    let shared = MultiRef::new(v.clone());
+                    let hw = if shape == 6 {
+                        // one wrapped value referenced from three members (clones share it)
+                        $hw { tag: "t<&>".into(), inner: shared.clone(), opt: Some(shared.clone()), items: vec![shared.clone(), shared.clone()], after: "z".into() }
+                    } else {
+                        $hw {
+                            tag: "t<&>".into(),
+                            inner: MultiRef::new(v.clone()),
+                            opt: opt.clone().map(MultiRef::new),
+                            items: items.iter().cloned().map(MultiRef::new).collect(),
+                            after: "z".into(),
+                        }
                     };
                     let vs = dbg(&hb);
                     let position = match shape {
                         0 => "field",
                         1 => "field+option",
                         2 | 4 => "field+vec",
+                        6 => "field+shared-handles",
                         _ => "field+option+vec",
                     };
                     agg.evaluations += 1;
@@ -400,6 +458,62 @@ field_probe!(field_nested, Nested, HbNested, HwNested);
 field_probe!(field_optrep, OptRep, HbOptRep, HwOptRep);
 field_probe!(field_restricted, Restricted, HbRestricted, HwRestricted);
 field_probe!(field_ns, Ns, HbNs, HwNs);
+
+macro_rules! flat_probe {
+    ($fname:ident, $t:ty, $hb:ident, $hw:ident) => {
+        #[derive(Debug, Default, YaSerialize, YaDeserialize)]
+        #[yaserde(rename = "FlatHolder")]
+        struct $hb {
+            #[yaserde(attribute = true)]
+            tag: String,
+            #[yaserde(rename = "Before")]
+            before: String,
+            #[yaserde(flatten = true)]
+            inner: $t,
+        }
+        #[derive(Debug, Default, YaSerialize, YaDeserialize)]
+        #[yaserde(rename = "FlatHolder")]
+        struct $hw {
+            #[yaserde(attribute = true)]
+            tag: String,
+            #[yaserde(rename = "Before")]
+            before: String,
+            #[yaserde(flatten = true)]
+            inner: MultiRef<$t>,
+        }
+        fn $fname(agg: &mut Agg, probe: &str, vals: &[$t]) {
+            for v in vals {
+                let hb = $hb { tag: "t".into(), before: "b".into(), inner: v.clone() };
+                let hw = $hw { tag: "t".into(), before: "b".into(), inner: MultiRef::new(v.clone()) };
+                let vs = dbg(&hb);
+                agg.evaluations += 1;
+                let sb = ser(&hb);
+                let sw = ser(&hw);
+                agg.distinct_texts.insert(crate::report::fnv1a(sb.as_bytes()));
+                if sb != sw {
+                    agg.diff(probe, "flattened-field", "serialize", sb.clone(), sw, vs.clone());
+                }
+                if let Some(text) = sb.strip_prefix("Ok:") {
+                    let db = de::<$hb>(text);
+                    let dw = de::<$hw>(text);
+                    if db != dw {
+                        agg.diff(probe, "flattened-field", "deserialize", db, dw, vs.clone());
+                    }
+                }
+                if dbg(&hw) != vs {
+                    agg.diff(probe, "flattened-field", "debug", vs.clone(), dbg(&hw), vs.clone());
+                }
+            }
+        }
+    };
+}
+
+flat_probe!(flat_text, TextOnly, FbText, FwText);
+flat_probe!(flat_attrs, Attrs, FbAttrs, FwAttrs);
+flat_probe!(flat_nested, Nested, FbNested, FwNested);
+flat_probe!(flat_optrep, OptRep, FbOptRep, FwOptRep);
+flat_probe!(flat_restricted, Restricted, FbRestricted, FwRestricted);
+flat_probe!(flat_ns, Ns, FbNs, FwNs);
 
 // ---------------------------------------------------------------------------------------------
 // self-referential probe: hc::MultiRef vs the harness's own forwarding wrapper
@@ -553,7 +667,7 @@ fn recursive_probes(rep: &mut Report, agg: &mut Agg) {
 
 pub fn check(tier: &str) -> i32 {
     let mut rep = Report::new("C19", tier, "model_checking");
-    let mut agg = Agg { found: BTreeMap::new(), evaluations: 0, distinct_texts: Default::default(), err_verdicts: 0, ok_verdicts: 0 };
+    let mut agg = Agg { found: BTreeMap::new(), evaluations: 0, distinct_texts: Default::default(), err_verdicts: 0, ok_verdicts: 0, handle_states: 0 };
     root_obs(&mut agg, "text-only", &v_text());
     root_obs(&mut agg, "attributes", &v_attrs());
     root_obs(&mut agg, "nested", &v_nested());
@@ -566,14 +680,21 @@ pub fn check(tier: &str) -> i32 {
     field_optrep(&mut agg, "optional-repeated", &v_optrep());
     field_restricted(&mut agg, "restricted", &v_restricted());
     field_ns(&mut agg, "namespaced", &v_ns());
+    flat_text(&mut agg, "text-only", &v_text());
+    flat_attrs(&mut agg, "attributes", &v_attrs());
+    flat_nested(&mut agg, "nested", &v_nested());
+    flat_optrep(&mut agg, "optional-repeated", &v_optrep());
+    flat_restricted(&mut agg, "restricted", &v_restricted());
+    flat_ns(&mut agg, "namespaced", &v_ns());
     recursive_probes(&mut rep, &mut agg);
     for (v, _n) in agg.found.values() {
         rep.violation(v.clone());
     }
     rep.set("evaluations", json!(agg.evaluations));
     rep.set("distinct_nontrivial", json!(agg.distinct_texts.len()));
-    rep.set("rule", json!("complete product of the member alphabets of 6 probe types (strings {x, a<b&c>\"', é€, padded, abcd}, ints {MIN,-1,0,1,MAX}, Option absent/present, Vec of 0/1/3 items) x position {root, field, Option field, Vec field} + recursive chains of depth 0,1,3; distinct_nontrivial = number of distinct serialized documents of the bare values (each compared with its wrapped twin in 5 observations)"));
+    rep.set("rule", json!("complete product of the member alphabets of 6 probe types (strings {x, a<b&c>\"', é€, padded, abcd}, ints {MIN,-1,0,1,MAX}, Option absent/present, Vec of 0/1/3 items) x position {root, field, Option field, Vec field, flattened field, one wrapped value shared by three members} + at the root every handle state reachable by <= 3 clone/drop operations (observed through every live handle) + recursive chains of depth 0,1,3; distinct_nontrivial = number of distinct serialized documents of the bare values (each compared with its wrapped twin in 5 observations)"));
     rep.set("exhaustive", json!(true));
+    rep.set("handle_states_explored", json!(agg.handle_states));
     rep.set("restriction_verdicts", json!({"ok": agg.ok_verdicts, "err": agg.err_verdicts}));
     rep.sample(json!({"probe": "attributes", "position": "field", "bare": ser(&Attrs { id: "é€".into(), num: -1, body: "a<b&c>\"'".into() })}));
     rep.sample(json!({"probe": "recursive-node", "serialized": ser(&chain_hc(1))}));
